@@ -27,8 +27,9 @@ func Failf(sig, format string, a ...any) *Fail { return &Fail{sig, fmt.Sprintf(f
 // Scenario is one closed driver.
 type Scenario struct {
 	Name      string
-	Bound     int // preemption bound in the plain build; -1 = all interleavings
-	RaceBound int // bound in the race build; -2 = not run there
+	Bound     int  // preemption bound in the plain build; -1 = all interleavings
+	RaceBound int  // bound in the race build; -2 = not run there
+	Delay     bool // delay bounding (every non-default thread choice costs) instead of preemption bounding
 	// Body builds fresh state (sequentially, pass-through mode), spawns the model
 	// threads on s and returns the observation record they fill in.
 	Body func(s *vrt.Sched) any
@@ -96,8 +97,12 @@ func worker(scenarios []Scenario, sh string, budget time.Duration) {
 	fmt.Sscanf(sh, "%d/%d", &i, &k)
 	deadline := time.Now().Add(budget)
 	res := shardResult{Race: vrt.RaceEnabled}
+	only := os.Getenv("VERIF_ONLY")
 	for idx, sc := range scenarios {
-		if idx%k != i {
+		if idx%k != i && only == "" {
+			continue
+		}
+		if only != "" && !strings.Contains(sc.Name, only) {
 			continue
 		}
 		bound := sc.Bound
@@ -108,6 +113,22 @@ func worker(scenarios []Scenario, sh string, budget time.Duration) {
 			bound = sc.RaceBound
 		}
 		st := scenStat{Name: sc.Name, Bound: bound}
+		// a fair share of the remaining budget (x4: scenarios are uneven), so that one heavy
+		// scenario cannot starve the others; what it did not finish is reported as capped
+		left := 0
+		for j := idx; j < len(scenarios); j++ {
+			if j%k == i || only != "" {
+				left++
+			}
+		}
+		share := time.Until(deadline) / time.Duration(left) * 4
+		if share < time.Second {
+			share = time.Second
+		}
+		scDeadline := time.Now().Add(share)
+		if scDeadline.After(deadline) {
+			scDeadline = deadline
+		}
 		outcomes := map[string]bool{}
 		var obs any
 		body := func(s *vrt.Sched) { obs = sc.Body(s) }
@@ -134,7 +155,7 @@ func worker(scenarios []Scenario, sh string, budget time.Duration) {
 			outcomes[out] = true
 			return f
 		}
-		stats := vrt.Explore(vrt.Options{MaxBound: bound, Cache: true, Stop: func() bool { return time.Now().After(deadline) }},
+		stats := vrt.Explore(vrt.Options{MaxBound: bound, Cache: true, Delay: sc.Delay, Stop: func() bool { return time.Now().After(scDeadline) }},
 			body, func(x *vrt.Exec) bool {
 				st.Steps += int64(x.Steps)
 				f := judge(x)
@@ -144,7 +165,7 @@ func worker(scenarios []Scenario, sh string, budget time.Duration) {
 				// replay twice with tracing; the same schedule must fail the same way
 				var traces [2][]string
 				for n := 0; n < 2; n++ {
-					y := vrt.Run(vrt.RunConfig{Prefix: x.Choices, Trace: true}, body)
+					y := vrt.Run(vrt.RunConfig{Prefix: x.Choices, Trace: true, Delay: sc.Delay}, body)
 					traces[n] = y.Trace
 					g := judge(y)
 					if g == nil || g.Sig != f.Sig {
@@ -377,7 +398,7 @@ func replayFile(scenarios []Scenario, file string) {
 			continue
 		}
 		var obs any
-		x := vrt.Run(vrt.RunConfig{Prefix: doc.Replay.Choices, Trace: true}, func(s *vrt.Sched) { obs = sc.Body(s) })
+		x := vrt.Run(vrt.RunConfig{Prefix: doc.Replay.Choices, Trace: true, Delay: sc.Delay}, func(s *vrt.Sched) { obs = sc.Body(s) })
 		for _, l := range x.Trace {
 			fmt.Println("  ", l)
 		}
